@@ -136,6 +136,15 @@ def rule_postlex_cons(ctx: RuleContext, p: Program, rid: str) -> None:
             elif isinstance(s, ast.Expr) and isinstance(s.value, ast.Yield) and isinstance(s.value.value, ast.Call):
                 c = s.value.value
                 fname = norm(c.func)
+                # a private forwarding helper: def _h(a, b, c): return lark.Token.new_borrow_pos(a, b, c)
+                hname = fname.split('.')[-1] if fname.startswith(('self.', 'cls.', 'PostLex.')) or '.' not in fname else None
+                helper = pl.attrs.get(hname) if hname else None
+                if isinstance(helper, FuncInfo) and len(c.args) == 3:
+                    hp = [a.arg for a in helper.node.args.args if a.arg not in ('self', 'cls')]
+                    hb = stmts_no_doc(helper.node.body)
+                    if len(hb) == 1 and isinstance(hb[0], ast.Return) and isinstance(hb[0].value, ast.Call) \
+                            and norm(hb[0].value.func).endswith('Token.new_borrow_pos') and [norm(a) for a in hb[0].value.args] == hp and len(hp) == 3:
+                        fname = 'lark.Token.new_borrow_pos'
                 if fname.endswith('Token.new_borrow_pos') and len(c.args) == 3 and in_loop:
                     if norm(c.args[2]) != tok:
                         raise AnalysisError('POSTLEX-CONS: new_borrow_pos does not borrow from the current token')
@@ -213,6 +222,80 @@ def rule_postlex_cons(ctx: RuleContext, p: Program, rid: str) -> None:
               'PostLexInline.process does not return the stream unchanged', f2.where)
 
 
+def _gap_sem(p: Program, mb: Any) -> tuple[str, int]:
+    from . import possem
+    from .tokenstore import TS
+    ts = TS(p)
+    m = p.module('parser')
+    fg = p.method(mb, '_fix_gap', inherited=False)
+    bt = p.method(mb, '_build_token', inherited=False)
+
+    class Interp(possem.PosInterp):
+        tag = 'BUILDER-CONS'
+
+        def method(self, cls: str, name: str) -> Any:            # type: ignore[override]
+            f = mb.lookup(name) if cls == 'ModelBuilder' else None
+            return f if isinstance(f, FuncInfo) else super().method(cls, name)
+
+        def expr(self, e: Any, env: dict) -> Any:                 # type: ignore[override]
+            if isinstance(e, ast.Subscript) and norm(e.value) in ('models.TOKEN_MODELS', 'TOKEN_MODELS'):
+                return possem.Obj('ModelClass', {'type': self.expr(e.slice, env)}, 'model class')
+            if isinstance(e, ast.Call) and isinstance(e.func, ast.Attribute) and e.func.attr == 'from_raw_text':
+                c = self.expr(e.func.value, env)
+                if isinstance(c, possem.Obj) and c.cls == 'ModelClass':
+                    return possem.Obj('Built', {'type': c.f['type'], 'raw_text': self.expr(e.args[0], env), 'claimed': True}, 'built')
+            if isinstance(e, ast.Call) and norm(e.func) == 'isinstance' and len(e.args) == 2:
+                v = self.expr(e.args[0], env)
+                t = norm(e.args[1])
+                if t.endswith('BlockComment'):
+                    return isinstance(v, possem.Obj) and v.cls == 'Built' and v.f['type'] == 'BLOCK_COMMENT'
+                raise self.err(e, 'isinstance against a class this rule does not model')
+            return super().expr(e, env)
+
+    import itertools
+    kinds = {'t': ('ACCOUNT', 'Assets:A'), 'e': ('EOL', ''), 'c': ('BLOCK_COMMENT', '; note'), 'w': ('WHITESPACE', ' ')}
+    cases = 0
+    for k in range(0, 5):
+        for seq in itertools.product('tecw', repeat=k):
+            toks = [possem.Obj('LarkToken', {'type': kinds[ch][0], 'value': kinds[ch][1]}, f'{i}:{ch}') for i, ch in enumerate(seq)]
+            for cursor in range(0, k + 1):
+                for target in range(cursor, k + 1):
+                    me = possem.Obj('ModelBuilder', {'_tokens': list(toks), '_built_tokens': [], '_cursor': cursor,
+                                                     '_token_to_index': {id(t): i for i, t in enumerate(toks)}}, 'builder')
+                    cases += 1
+                    try:
+                        Interp(ts, [], module=m).call_function(fg, [me, target], {})
+                    except possem.Raised as ex:
+                        return f'tokens {"".join(seq) or "-"}, cursor {cursor}, gap up to {target}: raises {ex}', cases
+                    want = [(t.f['type'], t.f['value']) for t in toks[cursor:target] if t.f['value']]
+                    got = [(b.f['type'], b.f['raw_text']) for b in me.f['_built_tokens']]
+                    if got != want:
+                        return (f'tokens {"".join(seq)} (t text, e zero-width mark, c block comment, w blank), cursor {cursor}, gap up to {target}: '
+                                f'materialises {got}, the lexer tokens with text in that range are {want}'), cases
+                    if me.f['_cursor'] != target:
+                        return f'_fix_gap({target}) leaves the cursor at {me.f["_cursor"]!r}', cases
+                    if any(b.f['type'] == 'BLOCK_COMMENT' and b.f['claimed'] for b in me.f['_built_tokens']):
+                        return 'a block comment from a gap is materialised as already claimed', cases
+            # _build_token for every token with text
+            for i, t in enumerate(toks):
+                if not t.f['value']:
+                    continue
+                for cursor in range(0, i + 1):
+                    me = possem.Obj('ModelBuilder', {'_tokens': list(toks), '_built_tokens': [], '_cursor': cursor,
+                                                     '_token_to_index': {id(x): j for j, x in enumerate(toks)}}, 'builder')
+                    cases += 1
+                    try:
+                        res = Interp(ts, [], module=m).call_function(bt, [me, t], {})
+                    except possem.Raised as ex:
+                        return f'_build_token(token {i}) with the cursor at {cursor}: raises {ex}', cases
+                    want = [(x.f['type'], x.f['value']) for x in toks[cursor:i + 1] if x.f['value']]
+                    got = [(b.f['type'], b.f['raw_text']) for b in me.f['_built_tokens']]
+                    if got != want or me.f['_cursor'] != i + 1 or not (me.f['_built_tokens'] and res is me.f['_built_tokens'][-1]):
+                        return (f'tokens {"".join(seq)}, _build_token(token {i}) with the cursor at {cursor}: materialises {got} and leaves the cursor at '
+                                f'{me.f["_cursor"]!r}; expected {want}, cursor {i + 1}, returning the last built token'), cases
+    return '', cases
+
+
 # ------------------------------------------------------------------ BUILDER-CONS
 def rule_builder_cons(ctx: RuleContext, p: Program, rid: str) -> None:
     ctx.rule(rid, 'ModelBuilder: _built_tokens is append-only; _fix_gap materialises every token between the cursor and its argument '
@@ -253,60 +336,13 @@ def rule_builder_cons(ctx: RuleContext, p: Program, rid: str) -> None:
     want = {('__init__', 'self._cursor = 0'), ('_fix_gap', f'self._cursor = {arg}'), ('_build_token', 'self._cursor += 1')}
     ctx.check(set(cur_writes) == want, rid, f'{site}: cursor writers', f'{sorted(cur_writes)}',
               f'_cursor is written by {sorted(cur_writes)}, expected {sorted(want)}', mb.where, note=f'{sorted(cur_writes)}')
-    # _fix_gap loop
-    loops = [l for l in walk_no_nested(fg.node) if isinstance(l, ast.For)]
-    problems = []
-    if len(loops) != 1 or norm(loops[0].iter) != f'self._tokens[self._cursor:{arg}]':
-        problems.append(f'gap loop iterates {norm(loops[0].iter) if loops else None}, expected self._tokens[self._cursor:{arg}]')
-    else:
-        lp = loops[0]
-        tv = norm(lp.target)
-        skips = [s for s in ast.walk(lp) if isinstance(s, (ast.Continue, ast.Break, ast.Return))]
-        for s in skips:
-            par = next((i for i in ast.walk(lp) if isinstance(i, ast.If) and s in i.body), None)
-            if not (isinstance(s, ast.Continue) and par is not None and norm(par.test) == f'not {tv}.value'):
-                problems.append(f'gap loop can skip a token under `{norm(par.test) if par else "<no guard>"}`')
-
-        def transfer(s: str, ev: tuple[Any, ...]) -> Iterable[str]:
-            if ev[0] == 'eval' and isinstance(ev[1], ast.Call):
-                c = ev[1]
-                if isinstance(c.func, ast.Attribute) and c.func.attr == 'from_raw_text':
-                    if norm(c.args[0]) != f'{tv}.value' or f'TOKEN_MODELS[{tv}.type]' not in norm(c.func.value):
-                        problems.append(f'gap token built as {norm(c)[:80]}')
-                    return ['built']
-                if self_attr(c.func) == '_add_tokens' or (isinstance(c.func, ast.Attribute) and self_attr(c.func.value) == '_built_tokens'):
-                    return ['added'] if s == 'built' else [s + '+added']
-            return [s]
-
-        from ..walker import Outcome
-        o = Outcome()
-        res = Walker(transfer).block(lp.body, {'start'}, o)
-        if res != {'added'}:
-            problems.append(f'an iteration can end in state {sorted(res)} (token with text not materialised exactly once)')
-        if o.continued - {'start'}:
-            problems.append('a token is skipped after being built')
-    ctx.check(not problems, rid, f'{site}._fix_gap', '; '.join(problems) or 'ok', '; '.join(problems), fg.where,
-              note='every token with text in [cursor, arg) built and appended once')
-    # _build_token
-    bt = p.method(mb, '_build_token', inherited=False)
-    tp = bt.params[1]
-    seq = []
-    for s in stmts_no_doc(bt.node.body):
-        for c in ast.walk(s):
-            if isinstance(c, ast.Call):
-                if self_attr(c.func) == '_fix_gap':
-                    seq.append(('gap', norm(c.args[0])))
-                elif isinstance(c.func, ast.Attribute) and c.func.attr == 'from_raw_text':
-                    seq.append(('build', norm(c.args[0]) + '|' + norm(c.func.value)))
-                elif self_attr(c.func) == '_add_tokens':
-                    seq.append(('add', norm(c.args[0])))
-        if isinstance(s, ast.AugAssign) and self_attr(s.target) == '_cursor':
-            seq.append(('advance', norm(s.value)))
-    kinds = [k for k, _ in seq]
-    ok = kinds == ['gap', 'build', 'add', 'advance'] and seq[0][1] == f'self._token_to_index[id({tp})]' \
-        and seq[1][1].startswith(f'{tp}.value|') and f'TOKEN_MODELS[{tp}.type]' in seq[1][1] and seq[3][1] == '1'
-    ctx.check(ok, rid, f'{site}._build_token', f'{seq}', f'_build_token does {seq}; expected gap fill up to the token, build from '
-              f'token.value, append, cursor += 1', bt.where, note='gap -> build -> append -> advance')
+    # _fix_gap and _build_token, interpreted against a mock builder
+    problem, cases = _gap_sem(p, mb)
+    ctx.check(not problem, rid, f'{site}._fix_gap / _build_token', problem or 'ok',
+              f'_fix_gap / _build_token interpreted on lexer-token lists of up to 4 tokens (with text, without text, block comments), every cursor '
+              f'position and every target: {problem}', fg.where,
+              note=f'{cases} cases: every token with text in [cursor, target) is materialised exactly once, in order, from its own type and text; '
+                   f'_build_token then adds its token and steps over it')
     init = p.method(mb, '__init__', inherited=False)
     idx = [a for a in walk_no_nested(init.node) if isinstance(a, ast.Assign) and self_attr(a.targets[0]) == '_token_to_index']
     ok = len(idx) == 1 and isinstance(idx[0].value, ast.DictComp) and 'enumerate(' in norm(idx[0].value) and norm(idx[0].value.key).startswith('id(')
@@ -350,29 +386,86 @@ def rule_parse_feed(ctx: RuleContext, p: Program, rid: str) -> None:
 
 
 def rule_print_all(ctx: RuleContext, p: Program, rid: str) -> None:
-    ctx.rule(rid, 'print_model writes raw_text of every element of model.tokens in order (no filter, transformation or early '
-                  'exit); RawModel.tokens lists the store range first_token..last_token')
+    """finite-domain evaluation of print_model and RawModel.tokens against mock models / stores"""
+    from . import possem
+    from .tokenstore import TS
+    ctx.rule(rid, 'print_model, interpreted on mock models of 0..3 tokens, writes raw_text of every element of model.tokens to the file, in '
+                  'order and nothing else, and returns the file; RawModel.tokens, interpreted against a mock store, is the list of the store '
+                  'range first_token..last_token (the empty list only when the model has no store or no tokens)')
+    ts = TS(p)
     f = p.func('printer', 'print_model')
-    model, out = f.params[0], f.params[1]
-    loops = [l for l in walk_no_nested(f.node) if isinstance(l, ast.For)]
-    ok = False
-    if len(loops) == 1 and norm(loops[0].iter) == f'{model}.tokens' and len(loops[0].body) == 1:
-        b = loops[0].body[0]
-        ok = isinstance(b, ast.Expr) and norm(b.value) == f'{out}.write({norm(loops[0].target)}.raw_text)'
-    joins = [c for c in walk_no_nested(f.node) if isinstance(c, ast.Call) and norm(c.func) == f'{out}.write' and c.args
-             and isinstance(c.args[0], ast.Call) and norm(c.args[0].func) == "''.join"]
-    if not ok and joins:
-        ge = joins[0].args[0].args[0]  # type: ignore[union-attr]
-        ok = isinstance(ge, (ast.GeneratorExp, ast.ListComp)) and norm(ge.generators[0].iter) == f'{model}.tokens' \
-            and not ge.generators[0].ifs and norm(ge.elt) == f'{norm(ge.generators[0].target)}.raw_text'
-    ctx.check(ok, rid, 'printer:print_model', 'writes every token', 'print_model does not write raw_text of every token of '
-              'model.tokens in order', f.where, note='for token in model.tokens: write(token.raw_text)')
+    pm = p.module('printer')
+
+    class Interp(possem.PosInterp):
+        tag = 'PRINT-ALL'
+
+        def __init__(self, mod: Any) -> None:
+            super().__init__(ts, [], module=mod)
+            self.written: list = []
+            self.ranges: list = []
+
+        def expr(self, e: Any, env: dict) -> Any:                 # type: ignore[override]
+            if isinstance(e, ast.Call) and isinstance(e.func, ast.Attribute):
+                bv = self.expr(e.func.value, env) if not (isinstance(e.func.value, ast.Name) and e.func.value.id not in env) else None
+                if isinstance(bv, possem.Obj) and bv.cls == 'File' and e.func.attr in ('write', 'writelines'):
+                    args = [self.expr(a, env) for a in e.args]
+                    self.written.extend([args[0]] if e.func.attr == 'write' else list(self.iter_of(args[0], e)))
+                    return None
+                if isinstance(bv, possem.Obj) and bv.cls == 'Store' and e.func.attr in ('get_first', 'get_last') and not e.args:
+                    al = bv.f['all']
+                    return (al[0] if e.func.attr == 'get_first' else al[-1]) if al else None
+                if isinstance(bv, possem.Obj) and bv.cls == 'Store' and e.func.attr == 'iter':
+                    args = [self.expr(a, env) for a in e.args]
+                    self.ranges.append(tuple(args))
+                    return list(bv.f['span']) if len(args) == 2 and args[0] is bv.f['span'][0] and args[1] is bv.f['span'][-1] else ['<wrong range>']
+            if isinstance(e, ast.Call) and isinstance(e.func, ast.Attribute) and e.func.attr == 'join' and isinstance(e.func.value, ast.Constant):
+                return e.func.value.value.join(self.iter_of(self.expr(e.args[0], env), e))
+            return super().expr(e, env)
+
+        def truth(self, v: Any, node: Any) -> bool:               # type: ignore[override]
+            if isinstance(v, possem.Obj) and v.cls == 'Store':
+                return bool(v.f['all'])
+            if isinstance(v, possem.Obj):
+                return True
+            return super().truth(v, node)
+
+    problem = ''
+    for k in range(0, 5):
+        texts = ['t0;', ' ', '\n', '', 't4'][:k + 1] if k else []
+        toks = [possem.Obj('Tok', {'raw_text': tx}, f'tok{i}') for i, tx in enumerate(texts)]
+        model = possem.Obj('Model', {'tokens': toks}, 'model')
+        out = possem.Obj('File', {}, 'file')
+        it = Interp(pm)
+        try:
+            res = it.call_function(f, [model, out], {})
+        except possem.Raised as ex:
+            problem = problem or f'{k} tokens: raises {ex}'
+            continue
+        if ''.join(it.written) != ''.join(t.f['raw_text'] for t in toks):
+            problem = problem or f'{k} tokens: writes {it.written}, the tokens read {[t.f["raw_text"] for t in toks]}'
+        elif res is not out:
+            problem = problem or 'does not return the file it was given'
+    ctx.check(not problem, rid, 'printer:print_model', 'writes every token', f'print_model: {problem}', f.where, note='mock models of 0..3 tokens')
     rm = p.cls('RawModel', 'models.base')
     t = p.method(rm, 'tokens', inherited=False)
-    rets = [norm(r.value) for r in walk_no_nested(t.node) if isinstance(r, ast.Return)]
-    ok = 'list(self.token_store.iter(self.first_token, self.last_token))' in rets and set(rets) <= {
-        'list(self.token_store.iter(self.first_token, self.last_token))', '[]'}
-    ctx.check(ok, rid, 'models.base:RawModel.tokens', f'{rets}', f'RawModel.tokens returns {rets}', t.where, note='store range first..last')
+    bm = p.module('models.base')
+    problem = ''
+    for has_store, n_all, span in ((False, 0, 0), (True, 0, 0), (True, 3, 1), (True, 3, 3), (True, 4, 2)):
+        alltoks = [possem.Obj('Tok', {'raw_text': f't{i}'}, f'tok{i}') for i in range(n_all)]
+        sp = alltoks[1:1 + span] if span < n_all else alltoks[:span]
+        store = possem.Obj('Store', {'all': alltoks, 'span': sp or [None]}, 'store') if has_store else None
+        me = possem.Obj('Model', {'token_store': store, '_token_store': store, 'first_token': sp[0] if sp else None, 'last_token': sp[-1] if sp else None}, 'model')
+        it = Interp(bm)
+        try:
+            res = it.call_function(t, [me], {})
+        except possem.Raised as ex:
+            problem = problem or f'raises {ex}'
+            continue
+        want = list(sp) if has_store and sp else []
+        if not isinstance(res, list) or [id(x) for x in res] != [id(x) for x in want]:
+            problem = problem or (f'store {"of " + str(n_all) + " tokens" if has_store else "absent"}, model spanning {span}: returns '
+                                  f'{[getattr(x, "label", x) for x in res] if isinstance(res, list) else res!r}, expected the {len(want)} tokens of the span')
+    ctx.check(not problem, rid, 'models.base:RawModel.tokens', 'store range first..last', f'RawModel.tokens: {problem}', t.where, note='5 mock models')
 
 
 def run(ctx: RuleContext, p: Program) -> None:
